@@ -108,8 +108,11 @@ def one(topology, faulty, fkind, req, index, remote):
             except BaseException: pass
     del w
     gc.collect()
-    time.sleep(0.05)
-    live, zomb = children()
+    # a simulator process whose connection was closed needs a moment to exit: poll before calling it "left running"
+    for _ in range(60):
+        live, zomb = children()
+        if not [p for p in live if p not in before_live]: break
+        time.sleep(0.05)
     res['live_children'] = [p for p in live if p not in before_live]
     res['zombie_children'] = len([p for p in zomb if p not in before_z])
     for p in res['live_children']:
@@ -134,7 +137,7 @@ def monitor(n, faulty, remote, fkind, res):
     bad = []
     if res['outcome'] == 'HANG': bad.append('run() did not terminate within 6 s')
     elif res['outcome'] == 'returned' and not res['remote_error_logged']: bad.append('run() returned normally without reporting the failure')
-    if res['elapsed'] > 3: bad.append(f"run() took {res['elapsed']} s")
+    if res['elapsed'] > 4.5: bad.append(f"run() took {res['elapsed']} s")
     if not res['loop_closed']: bad.append('event loop not closed')
     for i in range(n):
         if i == faulty: continue
